@@ -6,6 +6,7 @@ import S2T.Props.C12_LoopsSrc
 import S2T.Props.C12_Archive
 import S2T.Props.C12_History
 import S2T.Props.C12_Inflate
+import S2T.Props.C12_Cost
 /-!
 # C12 — extraction cost is bounded by the input; explicit limits hold
 
@@ -37,6 +38,8 @@ Parts:
 * `Props/C12_History.lean` (namespace `S2T.C12.History`): histories call / resize / consume of `read_file` on one path: comparison and
   read in the same activation ⇒ every read within the limit in every history; comparison at the call and read at consumption ⇒ unbounded;
   the activations of the current source are generated (tools/gen/c12_sites.py).
+* `Props/C12_Cost.lean` (namespace `S2T.C12.Cost`): cost of a whole archive — forward-only stream law (stored order = one pass for every member list,
+  every step back costs the prefix again, descending-order witness) and nests of archives (skip filter: 1 document for every fan-out / depth; recursion: ≥ fan^depth).
 * `Props/C12_Inflate.lean` (namespace `S2T.C12.Inflate`): compressed streams whose trailer understates them (multi-member gzip, ISIZE mod 2^32):
   trailer guard + one-shot inflation is unbounded, a bounded read is exact; closed-world inventory of every container opener / decompression
   call of archive_extractor.py (generated).
